@@ -416,6 +416,16 @@ def run(ctx):
                 kw["activations"] = oq.qtypes[acts]
             if selected is not None:
                 kw["modules"] = selected
+            # the documented alternative spellings of the same request: qtypes by name, the default optimizer passed explicitly
+            api = r.random()
+            if api < 0.25:
+                kw["weights"] = wq
+                if acts is not None:
+                    kw["activations"] = acts
+                ctx.count("quantize_with_qtype_names")
+            elif api < 0.5:
+                kw["optimizer"] = oq.MaxOptimizer() if wq in ("qint2", "qint4") else oq.AbsmaxOptimizer()
+                ctx.count("quantize_with_explicit_optimizer")
             desc["tree_repr"] = " ".join(f"{n or '.'}:{s['cls']}" for n, s in snap.items())[:400]
             try:
                 oq.quantize(model, **kw)
